@@ -46,7 +46,8 @@ Record cfg := {
   c_now : N                (* the time stamp new and written files get *)
 }.
 
-Inductive signal := SIGINT | SIGTERM | SIGKILL.
+(* SIGXFSZ / SIGPIPE are never raised by a plan: they accompany a write() that fails with EFBIG / EPIPE *)
+Inductive signal := SIGINT | SIGTERM | SIGKILL | SIGXFSZ | SIGPIPE.
 
 (* counted system calls; the descriptor class of the fault shim is part of the kind *)
 Inductive kindc :=
@@ -397,6 +398,22 @@ Section Run.
         end
     end.
 
+  (* A write() that fails with EFBIG / EPIPE comes with SIGXFSZ / SIGPIPE generated for the writing thread, where it
+     is blocked (setup_signals()).  failfx() prints nothing for these two; bailout() of a worker thread promotes the
+     pending signal to the process and raises SIGUSR1.  While the main thread waits in halt() with the mask saved by
+     cli() (regenerated fact), the promoted signal stays blocked: the main thread runs bailout(): cleanup(), then
+     unblocks it and dies from it.  If halt() waited with those signals unblocked, the promoted signal would kill the
+     process at once, before cleanup().  (Inherited SIG_IGN for these signals is not modelled.) *)
+  Definition die_by {A} (inhalt : bool) (sg : signal) : M A :=
+    if inhalt && negb fatal_signals_blocked_in_halt
+    then stop (Killed sg) WSigDefault
+    else cleanup ;;; stop (Killed sg) (WFatal "write").
+
+  Definition write_failed {A} (inhalt : bool) (e : N) : M A :=
+    if N.eqb e EFBIG then die_by inhalt SIGXFSZ
+    else if N.eqb e EPIPE then die_by inhalt SIGPIPE
+    else fatal "write".
+
   (* xwrite(): no call for an empty buffer or when discarding *)
   Definition do_write (inhalt : bool) (o : odst) (chunk : bytes) : M unit :=
     match chunk with
@@ -406,10 +423,10 @@ Section Run.
         | ODiscard => ret tt
         | OStdout =>
             r <- sys inhalt KWriteStdout (sys_write_stdout chunk) ;;
-            match r with SErr _ => fatal "write" | _ => ret tt end
+            match r with SErr e => write_failed inhalt e | _ => ret tt end
         | OFile i =>
             r <- sys inhalt KWrite (sys_write (c_now cf) i chunk) ;;
-            match r with SErr _ => fatal "write" | _ => ret tt end
+            match r with SErr e => write_failed inhalt e | _ => ret tt end
         end
     end.
 
